@@ -1,9 +1,9 @@
 package props
 
 import (
-	"os"
-	configapi "github.com/onosproject/onos-api/go/onos/config/v2"
 	"fmt"
+	configapi "github.com/onosproject/onos-api/go/onos/config/v2"
+	"os"
 	"strings"
 	"sync"
 	"time"
